@@ -1173,7 +1173,8 @@ int vorbis_encode_ctl(vorbis_info *vi,int number,void *arg){
         double *farg=(double *)arg;
         hi->lowpass_kHz=*farg;
 
-        if(hi->lowpass_kHz<2.)hi->lowpass_kHz=2.;
+        /* the first test is phrased so that NaN is replaced as well */
+        if(!(hi->lowpass_kHz>=2.))hi->lowpass_kHz=2.;
         if(hi->lowpass_kHz>99.)hi->lowpass_kHz=99.;
         hi->lowpass_altered=1;
       }
